@@ -591,6 +591,16 @@ def run(repo, rep):
     check_r09b(repo, rep, uni)
     nctx = check_r09c(repo, rep, uni)
     nattr = check_r09d(repo, rep, uni)
+    # objects registered in the context (function objects, their helpers)
+    # are part of the context: one that keeps per-call state is a side
+    # effect that outlives the evaluation
+    from sa.rules import c18
+    rep.rule('R18c', 'see C18: classes whose methods store to self after '
+             'construction are instantiated per call, never when the '
+             'library is registered')
+    stateful = c18.stateful_classes(repo, uni)
+    local, shared = c18.split_stateful(repo, uni, stateful)
+    c18.check_r18c(repo, rep, uni, local, shared)
     rep.count(functions_analysed=len(scope), write_sites=nsites,
               context_write_sites=nctx, core_attribute_stores=nattr,
               overloads=len(uni.reg.overloads))
